@@ -63,3 +63,24 @@ func init() {
 		NotDecided:  "value-correctness for all call graphs and argument values; by-reference aliasing through mapped resources; the generated call sites (their targets are checked by C02/JT-CLOSED).",
 		Assumptions: commonAssumptions})
 }
+
+func init() {
+	prop(&PropInfo{ID: "C07", Level: "other",
+		Explanation: "Decides strict two-phase locking of the shared-variable resource as a typestate on the control-flow graphs of localShared and LocalSharedManager: the shared cell is touched only on the success successor of tryEnsureLock (LS-2PL), hasLock is set only after a successful timed acquisition, release happens only in Commit/Abort after the inner commit/abort, under hasLock, once, clearing hasLock; acquisition is a select with a timeout arm and returns true only from the send arm (LS-TIMED); the lock channel has constant capacity 1 (LS-CAP1); the cell and lock are private to the owning types (LS-OWNER).",
+		NotDecided:  "serial equivalence of histories as such; fairness of lock acquisition; Persistent durability (recovery is unimplemented upstream).",
+		Assumptions: commonAssumptions})
+}
+
+func init() {
+	prop(&PropInfo{ID: "C06", Level: "other",
+		Explanation: "Decides the structural clauses that make mailboxes and channel resources transactional FIFO links, on the control-flow graphs of every reader/writer type: the TCP receiver publishes a connection's buffer only on the commit tag after a successful ack, as one record, and resets it on begin and after publishing (MB-PUBLISH); Abort puts in-progress reads back in front of the backlog and both Abort and Commit clear them (MB-REDELIVER); ReadValue serves the backlog before the channel and records every returned message (MB-BACKLOGFIRST); the tag protocol is exhaustive and Begin/PreCommit/Commit are conditioned on the section flag (MB-TAGS); the resend buffer mirrors what was sent (MB-RESEND); OutputChan buffers until Commit and its asynchronous commit is joined (CH-DEFER, ASYNC-JOIN); the reported length counts pending messages only (MB-LEN); plus RES-RESTORE / RES-PUBLISH instances for these types.",
+		NotDecided:  "order/loss/duplication over all interleavings as a history property; per-sender order across reconnects; duplication on lost commit acks (excluded by 'absent connection failure'); timing.",
+		Assumptions: commonAssumptions})
+}
+
+func init() {
+	prop(&PropInfo{ID: "C17", Level: "other",
+		Explanation: "Decides the lifecycle protocol of MPCalContext on the control-flow graphs of Run, Stop and the nested-context adapter: the exit request is sent at most once (under the lock, flag tested and set on the same path, capacity 1) so Stop cannot block holding the lock Run's epilogue needs (STOP-ONCE); awaitExit is closed only under the lock and only once (CLOSE-ONCE: non-blocking-receive guard, or Run's epilogue, which is registered only for a context that never ran and was not stopped); every path of Stop waits for awaitExit outside the lock (STOP-WAITS); every loop iteration polls requestExit before BeginEvent/Body/commit (EXIT-POLL); cleanupResources closes every resource, exactly from the epilogue, errors merged (CLEANUP-ALL, RES-OWNER, RES-FORWARD for map elements); nested contexts report exactly once and are collected (NESTED-COUNT).",
+		NotDecided:  "exactly-once Close when the same object is bound under two handles; duration bounds of cleanup; behaviour of a second Run after the first finished beyond the panic gate.",
+		Assumptions: commonAssumptions})
+}
